@@ -46,18 +46,17 @@ def speciesTotal (x : State) (n s : Nat) : Rat :=
 
 /-- step 2, one entry: below the switch a Poisson draw (no draw and 0 when the amount is not positive),
 from the switch on `max(0, floor(normal draw))` -/
-def redistEntry (v : Rat) : List Draw → Option (Rat × List Draw)
-  | ds =>
-    if v < poissonNormalSwitch then
-      if v > 0 then
-        match ds with
-        | .pois k :: r => some ((k : Rat), r)
-        | _ => none
-      else some (0, ds)
-    else
+def redistEntry (v : Rat) (ds : List Draw) : Option (Rat × List Draw) :=
+  if v < poissonNormalSwitch then
+    if v > 0 then
       match ds with
-      | .norm d :: r => some (max 0 ((d.floor : Int) : Rat), r)
+      | .pois k :: r => some ((k : Rat), r)
       | _ => none
+    else some (0, ds)
+  else
+    match ds with
+    | .norm d :: r => some (max 0 ((d.floor : Int) : Rat), r)
+    | _ => none
 
 /-- step 2, the loop over the flat cell-major array -/
 def redistDraw (x : State) : List (Nat × Nat) → List Draw → State → Option (State × List Draw)
@@ -114,13 +113,12 @@ def redist (x : State) (n ns : Nat) (ds : List Draw) : Option (State × List Dra
 
 /-! ### Poisson and floor modes (loops over the species-major input) -/
 
-def poissonEntry (v : Rat) : List Draw → Option (Rat × List Draw)
-  | ds =>
-    if v > 0 then
-      match ds with
-      | .pois k :: r => some ((k : Rat), r)
-      | _ => none
-    else some (0, ds)
+def poissonEntry (v : Rat) (ds : List Draw) : Option (Rat × List Draw) :=
+  if v > 0 then
+    match ds with
+    | .pois k :: r => some ((k : Rat), r)
+    | _ => none
+  else some (0, ds)
 
 def poissonMode (x : State) : List (Nat × Nat) → List Draw → State → Option (State × List Draw)
   | [], ds, acc => some (acc, ds)
